@@ -17,8 +17,10 @@ package main
 
 import (
 	"embed"
+	"go/constant"
 	"go/scanner"
 	"go/token"
+	"go/types"
 	"os"
 	"reflect"
 	"regexp"
@@ -197,9 +199,14 @@ func isTransparent(g *ssa.Function) bool {
 	for _, b := range g.Blocks {
 		n += len(b.Instrs)
 		for _, in := range b.Instrs {
-			switch in.(type) {
+			switch x := in.(type) {
 			case *ssa.Defer, *ssa.RunDefers, *ssa.Select:
 				return false
+			case *ssa.Call:
+				// a function that takes a lock is a unit of its own (the lock rules reason about who calls it)
+				if cn := calleeName(x); strings.HasPrefix(cn, "(*sync.RWMutex).") || strings.HasPrefix(cn, "(*sync.Mutex).") {
+					return false
+				}
 			}
 		}
 	}
@@ -237,6 +244,13 @@ func inlineAll(p *Program) (int, map[*ssa.Function]bool) {
 			continue // the integration-test driver is not analysed
 		}
 		il.expand(f)
+		for i := 0; i < 50; i++ {
+			a := fuseBlocks(f)
+			b := threadBoolPhi(f)
+			if !a && !b {
+				break
+			}
+		}
 	}
 	// helpers that were inlined and are referenced nowhere else (no remaining call, not used as a value)
 	used := map[*ssa.Function]bool{}
@@ -284,9 +298,12 @@ func (il *inliner) expand(f *ssa.Function) {
 				if !ok {
 					continue
 				}
-				g := c.Call.StaticCallee()
+				g, _ := resolveCallee(f, c)
 				if g == nil || g == f || !isTransparent(g) {
 					continue
+				}
+				if g.Pkg != f.Pkg {
+					continue // package boundaries are API boundaries: helpers born from a refactoring live next to their caller
 				}
 				if il.depth[c] >= maxInlineDepth {
 					continue
@@ -332,7 +349,7 @@ func (il *inliner) resultsReplaceable(c *ssa.Call, g *ssa.Function) bool {
 }
 
 func (il *inliner) inlineCall(f *ssa.Function, c *ssa.Call) {
-	g := c.Call.StaticCallee()
+	g, bindings := resolveCallee(f, c)
 	il.inlined[g] = true
 	il.sites = append(il.sites, inlinedCall{c.Pos(), g})
 	if os.Getenv("VGW_DEBUG") != "" {
@@ -356,11 +373,9 @@ func (il *inliner) inlineCall(f *ssa.Function, c *ssa.Call) {
 			vmap[prm] = args[i]
 		}
 	}
-	if mc, ok := c.Call.Value.(*ssa.MakeClosure); ok {
-		for i, fv := range g.FreeVars {
-			if i < len(mc.Bindings) {
-				vmap[fv] = mc.Bindings[i]
-			}
+	for i, fv := range g.FreeVars {
+		if i < len(bindings) && bindings[i] != nil {
+			vmap[fv] = bindings[i]
 		}
 	}
 	// clone blocks
@@ -536,4 +551,337 @@ func (il *inliner) inlineCall(f *ssa.Function, c *ssa.Call) {
 		b.Index = i
 	}
 	_ = token.NoPos
+}
+
+// threadBoolPhi rewrites one block of the form [b = phi(bool...); (b' = !b)*; if b'] whose values are used
+// nowhere else: every predecessor branches for itself on the value it contributes (a constant contribution
+// becomes a jump). This is what `if helper(x)` looks like after the helper `return a || f(y)` was inlined; without
+// it the comparison the helper makes is never the condition of a branch. Returns whether something changed.
+func threadBoolPhi(f *ssa.Function) bool {
+	for _, H := range f.Blocks {
+		n := len(H.Instrs)
+		if n < 2 || len(H.Succs) != 2 || H.Succs[0] == H.Succs[1] || len(H.Preds) == 0 {
+			continue
+		}
+		ifi, ok := H.Instrs[n-1].(*ssa.If)
+		if !ok {
+			continue
+		}
+		phi, ok := H.Instrs[0].(*ssa.Phi)
+		if !ok || len(phi.Edges) != len(H.Preds) {
+			continue
+		}
+		if b, isB := phi.Type().Underlying().(*types.Basic); !isB || b.Kind() != types.Bool {
+			continue
+		}
+		// the chain phi -> !phi -> ... -> if
+		cur := ssa.Value(phi)
+		neg := false
+		good := true
+		for i := 1; i < n-1; i++ {
+			u, isU := H.Instrs[i].(*ssa.UnOp)
+			if !isU || u.Op != token.NOT || u.X != cur {
+				good = false
+				break
+			}
+			if r := cur.Referrers(); r == nil || len(*r) != 1 {
+				good = false
+				break
+			}
+			cur = u
+			neg = !neg
+		}
+		if !good || ifi.Cond != cur {
+			continue
+		}
+		if r := cur.Referrers(); r == nil || len(*r) != 1 {
+			continue
+		}
+		self := false
+		for _, p := range H.Preds {
+			if p == H {
+				self = true
+			}
+		}
+		if self {
+			continue
+		}
+		onTrue, onFalse := H.Succs[0], H.Succs[1]
+		if neg {
+			onTrue, onFalse = onFalse, onTrue
+		}
+		// new blocks, one per predecessor edge
+		type route struct {
+			nb     *ssa.BasicBlock
+			toTrue bool
+			both   bool
+		}
+		var routes []route
+		for i, P := range H.Preds {
+			v := phi.Edges[i]
+			nb := &ssa.BasicBlock{Comment: "thread:" + H.Comment}
+			setUnexported(nb, "parent", f)
+			nb.Preds = []*ssa.BasicBlock{P}
+			for k, su := range P.Succs {
+				if su == H {
+					P.Succs[k] = nb
+					break
+				}
+			}
+			removeReferrer(v, phi)
+			if c, isC := v.(*ssa.Const); isC && c.Value != nil && c.Value.Kind() == constant.Bool {
+				j := &ssa.Jump{}
+				setUnexported(j, "block", nb)
+				nb.Instrs = []ssa.Instruction{j}
+				if constant.BoolVal(c.Value) {
+					nb.Succs = []*ssa.BasicBlock{onTrue}
+					routes = append(routes, route{nb, true, false})
+				} else {
+					nb.Succs = []*ssa.BasicBlock{onFalse}
+					routes = append(routes, route{nb, false, false})
+				}
+				continue
+			}
+			ni := &ssa.If{Cond: v}
+			setUnexported(ni, "block", nb)
+			addReferrer(v, ni)
+			nb.Instrs = []ssa.Instruction{ni}
+			nb.Succs = []*ssa.BasicBlock{onTrue, onFalse}
+			routes = append(routes, route{nb, true, true})
+		}
+		// repair the successors' predecessor lists and phis
+		for _, S := range []*ssa.BasicBlock{onTrue, onFalse} {
+			k := -1
+			for i, p := range S.Preds {
+				if p == H {
+					k = i
+				}
+			}
+			if k < 0 {
+				continue
+			}
+			var add []*ssa.BasicBlock
+			for _, rt := range routes {
+				if rt.both || (rt.toTrue && S == onTrue) || (!rt.toTrue && S == onFalse) {
+					add = append(add, rt.nb)
+				}
+			}
+			np := append([]*ssa.BasicBlock{}, S.Preds[:k]...)
+			np = append(np, S.Preds[k+1:]...)
+			np = append(np, add...)
+			S.Preds = np
+			for _, in := range S.Instrs {
+				q, isPhi := in.(*ssa.Phi)
+				if !isPhi {
+					break
+				}
+				val := q.Edges[k]
+				ne := append([]ssa.Value{}, q.Edges[:k]...)
+				ne = append(ne, q.Edges[k+1:]...)
+				for range add {
+					ne = append(ne, val)
+				}
+				q.Edges = ne
+			}
+		}
+		H.Preds = nil
+		H.Succs = nil
+		H.Instrs = nil
+		// install
+		var nbs []*ssa.BasicBlock
+		for _, b := range f.Blocks {
+			if b != H {
+				nbs = append(nbs, b)
+			}
+		}
+		for _, rt := range routes {
+			nbs = append(nbs, rt.nb)
+		}
+		f.Blocks = nbs
+		for i, b := range f.Blocks {
+			b.Index = i
+		}
+		return true
+	}
+	return false
+}
+
+// fuseBlocks merges a block that ends in an unconditional jump with its successor when that successor has no
+// other predecessor (and no phis): the seams left by inlining disappear. Returns whether something changed.
+func fuseBlocks(f *ssa.Function) bool {
+	changed := false
+	for again := true; again; {
+		again = false
+		for _, A := range f.Blocks {
+			if len(A.Instrs) == 0 || len(A.Succs) != 1 {
+				continue
+			}
+			if _, ok := A.Instrs[len(A.Instrs)-1].(*ssa.Jump); !ok {
+				continue
+			}
+			B := A.Succs[0]
+			if B == A || len(B.Preds) != 1 || B.Preds[0] != A || len(B.Instrs) == 0 || B == f.Blocks[0] || B == f.Recover {
+				continue
+			}
+			if _, isPhi := B.Instrs[0].(*ssa.Phi); isPhi {
+				continue
+			}
+			for _, in := range B.Instrs {
+				setUnexported(in, "block", A)
+			}
+			A.Instrs = append(A.Instrs[:len(A.Instrs)-1:len(A.Instrs)-1], B.Instrs...)
+			A.Succs = B.Succs
+			for _, s := range A.Succs {
+				for i, p := range s.Preds {
+					if p == B {
+						s.Preds[i] = A
+					}
+				}
+			}
+			B.Instrs, B.Succs, B.Preds = nil, nil, nil
+			var nbs []*ssa.BasicBlock
+			for _, b := range f.Blocks {
+				if b != B {
+					nbs = append(nbs, b)
+				}
+			}
+			f.Blocks = nbs
+			for i, b := range f.Blocks {
+				b.Index = i
+			}
+			again, changed = true, true
+			break
+		}
+	}
+	return changed
+}
+
+// resolveCallee: the function a direct call runs and the values of its free variables at the call: a static
+// callee, a function literal called in place, or a function-valued local that is assigned exactly once (also
+// when the call sits in another literal that captured that local: `add := func(..){..}; WalkDir(.., func(..){ add(x) })`).
+// Free variables of such a callee that the calling literal did not capture itself keep the callee's own FreeVar
+// (the rules identify captured variables by name).
+func resolveCallee(f *ssa.Function, c *ssa.Call) (*ssa.Function, []ssa.Value) {
+	if c.Call.IsInvoke() {
+		return nil, nil
+	}
+	switch v := c.Call.Value.(type) {
+	case *ssa.Function:
+		return v, nil
+	case *ssa.MakeClosure:
+		if g, ok := v.Fn.(*ssa.Function); ok {
+			return g, v.Bindings
+		}
+	case *ssa.UnOp:
+		if v.Op != token.MUL {
+			return nil, nil
+		}
+		var cell ssa.Value // the cell in the function that owns it
+		owner := f
+		switch x := v.X.(type) {
+		case *ssa.Alloc:
+			cell = x
+		case *ssa.FreeVar:
+			// walk up through the enclosing literals
+			cur := f
+			var fv ssa.Value = x
+			for depth := 0; depth < 4 && cur != nil; depth++ {
+				fvar, isFV := fv.(*ssa.FreeVar)
+				if !isFV {
+					break
+				}
+				idx := -1
+				for i, q := range cur.FreeVars {
+					if q == fvar {
+						idx = i
+					}
+				}
+				par := cur.Parent()
+				if idx < 0 || par == nil {
+					return nil, nil
+				}
+				var bound ssa.Value
+				for _, b := range par.Blocks {
+					for _, in := range b.Instrs {
+						if mc, ok := in.(*ssa.MakeClosure); ok && mc.Fn == cur && idx < len(mc.Bindings) {
+							bound = mc.Bindings[idx]
+						}
+					}
+				}
+				if bound == nil {
+					return nil, nil
+				}
+				fv = bound
+				cur = par
+			}
+			al, ok := fv.(*ssa.Alloc)
+			if !ok {
+				return nil, nil
+			}
+			cell, owner = al, cur
+		}
+		al, ok := cell.(*ssa.Alloc)
+		if !ok || al.Referrers() == nil {
+			return nil, nil
+		}
+		var mc *ssa.MakeClosure
+		var fn *ssa.Function
+		n := 0
+		for _, ref := range *al.Referrers() {
+			st, isSt := ref.(*ssa.Store)
+			if !isSt || st.Addr != ssa.Value(al) {
+				continue
+			}
+			n++
+			val := st.Val
+			if ct, isCT := val.(*ssa.ChangeType); isCT {
+				val = ct.X
+			}
+			switch w := val.(type) {
+			case *ssa.MakeClosure:
+				mc = w
+				fn, _ = w.Fn.(*ssa.Function)
+			case *ssa.Function:
+				fn = w
+			}
+		}
+		if n != 1 || fn == nil {
+			return nil, nil
+		}
+		if mc == nil {
+			return fn, nil
+		}
+		if owner == f {
+			return fn, mc.Bindings
+		}
+		// the callee's bindings live in an enclosing function: use f's own capture of the same variable where it
+		// has one, the callee's FreeVar otherwise
+		out := make([]ssa.Value, len(mc.Bindings))
+		for i, b := range mc.Bindings {
+			out[i] = nil
+			for k, q := range f.FreeVars {
+				if captures(f, k) == b {
+					out[i] = q
+				}
+			}
+		}
+		return fn, out
+	}
+	return nil, nil
+}
+
+// captures: the value (in the parent) that free variable #k of f is bound to.
+func captures(f *ssa.Function, k int) ssa.Value {
+	par := f.Parent()
+	if par == nil {
+		return nil
+	}
+	for _, b := range par.Blocks {
+		for _, in := range b.Instrs {
+			if mc, ok := in.(*ssa.MakeClosure); ok && mc.Fn == f && k < len(mc.Bindings) {
+				return mc.Bindings[k]
+			}
+		}
+	}
+	return nil
 }
